@@ -200,3 +200,22 @@ struct Inner<R> {
     stages: Vec<Stage<'static>>,
     world: R,
 }
+
+#[cfg(feature = "verif-hooks")]
+impl<R> AsyncDispatcher<'_, R>
+where
+    R: Borrow<World> + Send + Sync + 'static,
+{
+    /// Verification hook (read-only): shape of the executed layout and the
+    /// number of thread-local systems. Waits for a running dispatch first.
+    pub fn verif_shape(&mut self) -> (Vec<Vec<usize>>, usize) {
+        let shape = self
+            .data
+            .inner()
+            .stages
+            .iter()
+            .map(Stage::verif_group_lens)
+            .collect();
+        (shape, self.thread_local.len())
+    }
+}
